@@ -236,10 +236,10 @@ def u_client(c):
 @unit("C17", "client.subprotocol", [(M, "WebSocketClientConnection.headers_received"), (M, "WebSocketProtocol13._process_server_headers")])
 def u_client_subprotocol(c):
     """the client side of a whole handshake over an in-memory connection: a subprotocol in the response must be one the client asked for"""
-    offered = c.choose("client-offers", [None, ["chat"], ["chat", "superchat"]])
-    answered = c.choose("server-answers", [None, "chat", "superchat", "evil"])
+    offered = c.choose("client-offers", [None, ["chat"], ["chat", "superchat"], ["superchat", "chat.v2"]])
+    answered = c.choose("server-answers", [None, "chat", "superchat", "evil", "chat.v2", "v2", "superchat,chat.v2", ""])
     r = client_handshake(c, offered, answered)
-    ok = answered is None or (offered is not None and answered in offered)
+    ok = answered in (None, "") or (offered is not None and answered in offered)        # (an empty header value names no subprotocol)
     c.cover("client-subprotocol/%s" % ("ok" if ok else "bad"))
     c.values = {k: repr(v)[:200] for k, v in r.items()}
     c.oblige("post/the-connection-is-established-exactly-when-the-answered-subprotocol-was-offered (or none was answered)", r["connected"] == ok)
